@@ -9,8 +9,8 @@ DESIGN_REF = 'DESIGN.md section 4, C15'
 SINGLE_OUTCOME_OK = False
 BOUNDS = {
     'quick': 'N=16: all n in 0..16, start/stop in {None,-16..16}, step in {None,1..16}; Sample(k) k in 1..34, n in 0..32; '
-             'option strings: all sequences of <=4 tokens from a 12 token alphabet joined by commas + every single token',
-    'thorough': 'N=32 (slices), Sample(k) k in 1..66, n in 0..64; option strings: <=5 tokens from a 14 token alphabet',
+             'option strings: all sequences of <=4 tokens from a 16 token alphabet (among them pieces of the word None) joined by commas + every single token',
+    'thorough': 'N=32 (slices), Sample(k) k in 1..66, n in 0..64; option strings: <=5 tokens from an 18 token alphabet',
 }
 RULE = ('(also: one selector object applied to every length in turn, ascending then descending, as one --frame-slice option is applied to every frame array) full product of (n, start, stop, step) / (k, n) / comma-joined token sequences, each enumerated once; '
         'non-trivial = the selection is non-empty and not the whole sequence (slices, samples) or the string has a comma '
@@ -18,7 +18,7 @@ RULE = ('(also: one selector object applied to every length in turn, ascending t
 ASSUMPTIONS = ['Slice.last()/Sample.last() are not in the statement (pinned by the suite) and are exercised only through C11',
                'a step <= 0 in an option string is neither required to be accepted nor rejected']
 
-TOKENS_Q = ['', '1', '-2', '0', 'None', ' 3 ', 'x', '1.5', '+4', 'None7', '6None4', 'NoneNone']   # the last three: the word None run together with other text
+TOKENS_Q = ['', '1', '-2', '0', 'None', ' 3 ', 'x', '1.5', '+4', 'None7', '6None4', 'NoneNone', 'N', 'on', 'one', 'e']   # the last three: the word None run together with other text
 TOKENS_T = TOKENS_Q + ['12', 'none']
 
 
@@ -45,6 +45,7 @@ def check_slice(n, start, stop, step, obj=None):
     exp = list(range(n))[slice(start, stop, step)]
     try:
         s = obj if obj is not None else Slice.Slice(start, stop, step)
+        _descr = (s.long_str(n), str(s))       # descriptions are queries: they must leave the selector as it is
         ind = s.indices(n)
         gen = list(s.gen_indices(n))
         cnt = s.count(n)
@@ -93,6 +94,7 @@ def check_sample(k, n, obj=None):
     ind = None
     try:
         s = obj if obj is not None else Slice.Sample(k)
+        _descr = (s.long_str(n), str(s))       # descriptions are queries: they must leave the selector as it is
         ind = s.indices(n)
         gen = list(s.gen_indices(n))
         cnt = s.count(n)
